@@ -1,5 +1,5 @@
 use crate::{
-    cfg::Cfg,
+    cfg::{Cfg, CfgNode},
     parser::InstructionProperties,
     passes::{DiagnosticBuilder, DiagnosticManager, LintError, LintPass},
 };
@@ -19,8 +19,12 @@ impl LintPass for ControlFlowCheck {
                 // If the previous nodes set is not empty
                 // Note: this also accounts for functions being at the beginning
                 // of a program, as the ProgEntry node will be the previous node
-                for prev_node in node.prevs().iter() {
-                    for function in node.functions().iter() {
+                // The previous nodes and the functions are hash sets: visit
+                // them in program order so that the errors come in a fixed order
+                let mut functions = node.functions().iter().cloned().collect::<Vec<_>>();
+                functions.sort_by_key(|f| f.entry().order());
+                for prev_node in &CfgNode::in_program_order(&node.prevs()) {
+                    for function in &functions {
                         if prev_node.is_program_entry() {
                             errors.push(LintError::FirstInstructionIsFunction(
                                 node.node().clone(),
